@@ -359,8 +359,8 @@ def archs_for(tier):
 
 def build_jobs(tier, seed):
     cases = build_cases(tier, seed)
-    n = 48 if tier == "quick" else 1500
-    per = 16 if tier == "quick" else 150
+    n = 48 if tier == "quick" else 200
+    per = 16 if tier == "quick" else 100
     jobs = []
     for cs in cases:
         for first in range(0, n, per):
@@ -439,6 +439,7 @@ def det_job(job):
             continue
         rs = derive_seed(seed, PROP, "det", i)
         spec = make_spec(cs, run_params(random.Random(rs), case.klen))
+        spec["max_steps"] = 12000
         ch = Chooser(seed=rs)
         r1 = lcdcheck.execute(spec, ch)
         r2 = lcdcheck.execute(spec, Chooser(seed=rs))
